@@ -96,7 +96,16 @@ def _instant(y, mo, d, h, mi, s, tzm):
     return secs, tzm
 
 
-def parse_temporal(typ: str, lex: str):
+def _astro_year(lexical_year: int, xsd: str) -> int:
+    """XSD 1.1: the lexical year is the astronomical year (0000 = 1 BCE); XSD 1.0: no year 0000, -0001 = 1 BCE = astronomical 0"""
+    if xsd == '1.1':
+        return lexical_year
+    if lexical_year == 0:
+        raise CastError('year 0000')
+    return lexical_year + 1 if lexical_year < 0 else lexical_year
+
+
+def parse_temporal(typ: str, lex: str, xsd: str = '1.0'):
     """-> (local seconds since epoch, tz minutes | None); the reference points of F&O 9.4 for the partial types"""
     s = lex.strip(' \t\n\r')
     m = _RE[typ].match(s)
@@ -105,16 +114,11 @@ def parse_temporal(typ: str, lex: str):
     g = m.groups()
     tzm = _tz_minutes(g[-1])
     if typ == 'dateTime':
-        y = int(g[0])
-        if y == 0:
-            raise CastError('year 0')
+        y = _astro_year(int(g[0]), xsd)
         sec = Fraction(int(g[5])) + (Fraction(g[6][1:]) / 10 ** len(g[6][1:]) if g[6] else 0)
         return _instant(y, int(g[1]), int(g[2]), int(g[3]), int(g[4]), sec, tzm)
     if typ == 'date':
-        y = int(g[0])
-        if y == 0:
-            raise CastError('year 0')
-        return _instant(y, int(g[1]), int(g[2]), 0, 0, 0, tzm)
+        return _instant(_astro_year(int(g[0]), xsd), int(g[1]), int(g[2]), 0, 0, 0, tzm)
     if typ == 'time':
         sec = Fraction(int(g[2])) + (Fraction(g[3][1:]) / 10 ** len(g[3][1:]) if g[3] else 0)
         h = int(g[0])
@@ -123,9 +127,9 @@ def parse_temporal(typ: str, lex: str):
             secs -= 86400          # 24:00:00 is 00:00:00 of the same (reference) day for xs:time
         return secs, tzm
     if typ == 'gYear':
-        return _instant(int(g[0]), 1, 1, 0, 0, 0, tzm)
+        return _instant(_astro_year(int(g[0]), xsd), 1, 1, 0, 0, 0, tzm)
     if typ == 'gYearMonth':
-        return _instant(int(g[0]), int(g[1]), 1, 0, 0, 0, tzm)
+        return _instant(_astro_year(int(g[0]), xsd), int(g[1]), 1, 0, 0, 0, tzm)
     if typ == 'gMonth':
         return _instant(1972, int(g[0]), 1, 0, 0, 0, tzm)
     if typ == 'gMonthDay':
@@ -198,7 +202,7 @@ def kind_of(typ: str) -> str:
     return typ
 
 
-def value(atom):
+def value(atom, xsd: str = '1.0'):
     """(kind, payload) of a typed atom; CastError when the lexical is not in the lexical space."""
     t, lex = atom
     try:
@@ -211,7 +215,7 @@ def value(atom):
         if t == 'QName':
             return ('QName', parse_qname(lex))
         if t in DATETIMES or t in GREGORIAN:
-            return (t, parse_temporal(t, lex))
+            return (t, parse_temporal(t, lex, xsd))
         if t in DURATIONS:
             return ('duration', (t,) + parse_duration(t, lex))
         if t in BINARY:
@@ -249,11 +253,11 @@ def _timeline(payload, implicit_tz):
     return secs - tzm * 60
 
 
-def value_compare(op: str, a, b, version: str = '3.1', implicit_tz=None):
+def value_compare(op: str, a, b, version: str = '3.1', implicit_tz=None, xsd: str = '1.0'):
     """`a op b` for two typed atoms (value comparison, XPath 3.1 3.7.1). xs:untypedAtomic operands are
     cast to xs:string.  Returns ('bool', b) | ('error', 'XPTY0004') | None (needs the implicit timezone)."""
-    ka, va = value(a)
-    kb, vb = value(b)
+    ka, va = value(a, xsd)
+    kb, vb = value(b, xsd)
     if ka == 'untypedAtomic':
         ka = 'string'
     if kb == 'untypedAtomic':
@@ -312,7 +316,7 @@ def value_compare(op: str, a, b, version: str = '3.1', implicit_tz=None):
 # general comparison (XPath 2.0+ without compatibility mode)
 # --------------------------------------------------------------------------
 
-def _general_pair(op, a, b, version, implicit_tz):
+def _general_pair(op, a, b, version, implicit_tz, xsd='1.0'):
     ta, tb = a[0], b[0]
     if ta == 'untypedAtomic' and tb == 'untypedAtomic':
         a, b = ['string', a[1]], ['string', b[1]]
@@ -332,21 +336,21 @@ def _general_pair(op, a, b, version, implicit_tz):
             target = o[0] if o[0] in ('dayTimeDuration', 'yearMonthDuration') else o[0]
         cast = [target, u[1]]
         try:
-            value(cast)
+            value(cast, xsd)
         except CastError:
             return ('error', 'FORG0001')
         a, b = (cast, b) if ta == 'untypedAtomic' else (a, cast)
-    return value_compare(op, a, b, version, implicit_tz)
+    return value_compare(op, a, b, version, implicit_tz, xsd)
 
 
-def general_compare(sym: str, A, B, version: str = '3.1', implicit_tz=None):
+def general_compare(sym: str, A, B, version: str = '3.1', implicit_tz=None, xsd: str = '1.0'):
     """A sym B for two sequences of atoms -> set of acceptable outcomes: subset of
     {True, False, 'XPTY0004', 'FORG0001'}; None when some pair has no verdict."""
     op = GENERAL[sym]
     any_true, errors = False, set()
     for a in A:
         for b in B:
-            r = _general_pair(op, a, b, version, implicit_tz)
+            r = _general_pair(op, a, b, version, implicit_tz, xsd)
             if r is None:
                 return None
             if r[0] == 'error':
@@ -398,6 +402,66 @@ def compare10(sym: str, a, b) -> bool:
         return (x == y) if sym == '=' else (x != y)
     x, y = number10(a), number10(b)
     return {'<': x < y, '<=': x <= y, '>': x > y, '>=': x >= y}[sym]
+
+
+# --------------------------------------------------------------------------
+# general comparison with XPath 1.0 compatibility mode = true (XPath 2.0 section 3.5.2)
+# --------------------------------------------------------------------------
+
+def _number20(item) -> float:
+    """fn:number (F&O 14.4.? / 4.5.1): cast to xs:double, NaN when the cast fails"""
+    t, x = item
+    if t == 'boolean':
+        return 1.0 if parse_boolean(x) else 0.0
+    if t in NUMERIC:
+        return N.convert(N.make(t, x), 'double')[1] if t != 'double' else N.parse('double', x)
+    try:
+        return N.parse('double', x)          # string / untypedAtomic (node): xs:double lexical space
+    except ValueError:
+        return math.nan
+
+
+def compat_general(sym: str, A, B):
+    """Items: ['boolean', lex] | [numeric type, lex] | ['string', s] | ['node', text] (a node whose typed value is
+    xs:untypedAtomic(text)).  Rules of XPath 2.0 3.5.2 in order: (1) a single xs:boolean operand converts the other
+    operand to its effective boolean value; (2) atomization; (3) < <= > >= convert every item with fn:number;
+    (4) = != : a numeric item converts the pair with fn:number, otherwise strings / untypedAtomic compare as strings.
+    Returns the set of acceptable outcomes."""
+    def single_bool(S):
+        return len(S) == 1 and S[0][0] == 'boolean'
+
+    def ebv_of(S):
+        return ebv(['node' if it[0] == 'node' else it for it in S])
+
+    if single_bool(A) or single_bool(B):
+        if single_bool(A):
+            e = ebv_of(B)
+            if not isinstance(e, bool):
+                return {e}
+            B = [['boolean', 'true' if e else 'false']]
+        if single_bool(B):
+            e = ebv_of(A)
+            if not isinstance(e, bool):
+                return {e}
+            A = [['boolean', 'true' if e else 'false']]
+    A = [['untypedAtomic', x[1]] if x[0] == 'node' else x for x in A]
+    B = [['untypedAtomic', x[1]] if x[0] == 'node' else x for x in B]
+    op = GENERAL[sym]
+    any_true, errors = False, set()
+    for a in A:
+        for b in B:
+            if sym in ('<', '<=', '>', '>=') or a[0] in NUMERIC or b[0] in NUMERIC:
+                x, y = _number20(a), _number20(b)
+                r = _num_compare(op, ('double', x), ('double', y))
+            elif a[0] == 'boolean' or b[0] == 'boolean':
+                if a[0] == b[0]:
+                    r = _cmp_to(op, int(parse_boolean(a[1])) - int(parse_boolean(b[1])))
+                else:
+                    return None            # boolean inside a longer sequence against a string: not modelled
+            else:
+                r = _cmp_to(op, (a[1] > b[1]) - (a[1] < b[1]))
+            any_true = any_true or r
+    return ({True} if any_true else {False}) | errors
 
 
 # --------------------------------------------------------------------------
@@ -493,6 +557,20 @@ def self_test():
     assert vc('eq', ['gDay', '---25-14:00'], ['gDay', '---25+10:00'], '3.1', tz) == F
     assert vc('eq', ['gDay', '---12'], ['gDay', '---12Z'], '3.1', tz) == F
     assert vc('lt', ['gYear', '2000'], ['gYear', '2001']) == X
+    # era boundary: 1 BCE is -0001 in XSD 1.0 and 0000 in XSD 1.1; 0001-01-01T00:00:00+14:00 = 1 BCE-12-31T10:00:00Z
+    assert vc('eq', ['dateTime', '0001-01-01T00:00:00+14:00'], ['dateTime', '-0001-12-31T10:00:00Z']) == T
+    assert vc('eq', ['dateTime', '0001-01-01T00:00:00+14:00'], ['dateTime', '0000-12-31T10:00:00Z'], '3.1', None, '1.1') == T
+    assert vc('eq', ['dateTime', '0001-01-01T00:00:00+14:00'], ['dateTime', '-0001-12-31T10:00:00Z'], '3.1', None, '1.1') == F
+    assert vc('lt', ['dateTime', '0001-01-01T00:00:00+14:00'], ['dateTime', '-0001-12-31T23:00:00Z']) == T
+    assert vc('gt', ['date', '-0001-12-31-14:00'], ['date', '0001-01-01+14:00']) == T
+    assert vc('eq', ['dateTime', '9999-12-31T24:00:00Z'], ['dateTime', '10000-01-01T00:00:00Z']) == T
+    assert vc('lt', ['dateTime', '10000-01-01T00:00:00+05:00'], ['dateTime', '9999-12-31T23:00:00-05:00']) == T
+    try:
+        value(['dateTime', '0000-01-01T00:00:00Z'])
+        assert False
+    except CastError:
+        pass
+    assert days_from_civil(0, 12, 31) == days_from_civil(1, 1, 1) - 1 and days_from_civil(0, 3, 1) - days_from_civil(0, 2, 1) == 29
     # durations (F&O 8.2)
     assert vc('eq', ['duration', 'P1Y'], ['duration', 'P12M']) == T
     assert vc('eq', ['duration', 'PT24H'], ['duration', 'P1D']) == T
@@ -541,6 +619,18 @@ def self_test():
     assert compare10('=', ('boolean', True), ('string', 'false')) and compare10('<', ('string', '2'), ('string', '10'))
     assert not compare10('<', ('string', 'a'), ('string', 'b')) and compare10('!=', ('number', math.nan), ('number', math.nan))
     assert compare10('=', ('boolean', False), ('number', math.nan)) and math.isnan(number10(('string', '1e2')))
+    # compatibility mode (XPath 2.0 3.5.2): boolean rule first and for all six operators, then number, then string
+    cg = compat_general
+    Bt, Bf = [['boolean', 'true']], [['boolean', 'false']]
+    assert cg('<', Bt, I(2)) == {False} and cg('<=', Bt, I(2)) == {True} and cg('>', Bt, I(0)) == {True}
+    assert cg('=', Bt, I(2)) == {True} and cg('<', Bf, [['double', 'NaN']]) == {False} and cg('>=', Bf, [['double', 'NaN']]) == {True}
+    assert cg('<', Bf, [['string', 'abc']]) == {True} and cg('=', Bt, []) == {False} and cg('>', Bt, []) == {True}
+    assert cg('=', Bt, I(1, 2)) == {'FORG0006'} and cg('=', Bt, [['node', '0'], ['integer', '7']]) == {True}
+    assert cg('=', [['string', '1.0']], I(1)) == {True} and cg('=', [['string', '1.0']], [['string', '1']]) == {False}
+    assert cg('<', [['string', '2']], [['string', '10']]) == {True} and cg('<', [['string', 'a']], [['string', 'b']]) == {False}
+    assert cg('=', [['node', '1.0']], I(1)) == {True} and cg('=', [['node', 'a']], [['string', 'a']]) == {True}
+    assert cg('!=', [['string', 'x']], I(1)) == {True} and cg('=', [['string', '1e2']], I(100)) == {True}
+    assert cg('=', I(1, 2), [['string', 'b'], ['string', '2.0']]) == {True}
     # EBV (XPath 3.1 2.4.3)
     assert ebv([]) is False and ebv(['node', ['integer', '0']]) is True and ebv([['string', '']]) is False
     assert ebv([['string', 'false']]) is True and ebv([['double', 'NaN']]) is False and ebv([['decimal', '0.0']]) is False
